@@ -296,6 +296,8 @@ func (fx *FuncExec) specType(env *SpecEnv, e ast.Expr) types.Type {
 		}
 	case *ast.InterfaceType:
 		return types.NewInterfaceType(nil, nil)
+	case *ast.MapType:
+		return types.NewMap(fx.specType(env, x.Key), fx.specType(env, x.Value))
 	}
 	fx.specFail(env, "unknown type expression")
 	return nil
